@@ -192,10 +192,12 @@ def clean_chain(draw, k, max_len, allow_palindromes=False, strict_last=False):
         # the reverse-complemented assembly is unambiguous as well
         import itertools
         pool = last + ["".join(t) for t in itertools.islice(itertools.product(ACGT, repeat=k), 0, 300)]
-        last = [o for o in pool if all(not collides(o, s_) for s_ in starts) and dna.rc(o) != o]
+        last = [o for o in pool if all(not collides(o, s_) for s_ in starts)
+                and (allow_palindromes or dna.rc(o) != o)]
         if not last:
             starts = starts[:1]
-            last = [o for o in pool if not collides(o, starts[0]) and dna.rc(o) != o]
+            last = [o for o in pool if not collides(o, starts[0])
+                    and (allow_palindromes or dna.rc(o) != o)]
     if not last:
         # deterministic fallback: first k-mer not used as a start
         import itertools
